@@ -516,3 +516,82 @@ func (x *gen) directedSoloRead() {
 	}
 	c.exec("flush 5")
 }
+
+// directedReadHeartbeat: a deposed leader with a divergent uncommitted tail rejoins; before any
+// append has repaired its log it receives the heartbeat that carries a pending ReadIndex request
+// of the new leader.
+func (x *gen) directedReadHeartbeat() {
+	c := x.c
+	a := x.leader()
+	if a == nil || len(c.alive()) < 3 || c.base.Lease {
+		x.idle()
+		return
+	}
+	c.exec("flush 4")
+	// a is cut off with uncommitted entries
+	x.isolate(a)
+	x.net0()
+	for i := 0; i < 2; i++ {
+		c.exec(fmt.Sprintf("propose %d", a.id))
+	}
+	c.exec(fmt.Sprintf("process %d", a.id))
+	x.net0()
+	// the others elect b and commit other entries at the same indexes
+	rest := x.others(a.id)
+	b := x.electAmong(rest, x.termOf(a), nil)
+	if b == nil {
+		c.exec("unblock")
+		c.exec("flush 5")
+		return
+	}
+	for i := 0; i < 3; i++ {
+		c.exec(fmt.Sprintf("propose %d", b.id))
+	}
+	for r := 0; r < 4; r++ {
+		for _, n := range rest {
+			c.exec(fmt.Sprintf("process %d", n.id))
+		}
+		x.deliverAll()
+	}
+	// another of them takes over (its Next for a starts beyond everything committed so far) and
+	// commits its own first entry
+	if len(rest) > 1 {
+		var cand *Node
+		for _, n := range rest {
+			if n != b {
+				cand = n
+			}
+		}
+		if nb := x.electAmong(rest, x.termOf(b), cand); nb != nil {
+			b = nb
+			for r := 0; r < 4; r++ {
+				for _, n := range rest {
+					c.exec(fmt.Sprintf("process %d", n.id))
+				}
+				x.deliverAll()
+			}
+		}
+	}
+	// a is reachable again, but only heartbeats get through to it for a while
+	c.exec("unblock")
+	x.net0()
+	c.exec(fmt.Sprintf("readindex %d", b.id))
+	for r := 0; r < 3 && !c.stopped; r++ {
+		c.exec(fmt.Sprintf("tick %d", b.id))
+		c.exec(fmt.Sprintf("process %d", b.id))
+		for i := 0; i < len(c.net) && !c.stopped; {
+			m := c.net[i]
+			if m.GetTo() == a.id && m.GetType() != pb.MsgHeartbeat {
+				c.exec(fmt.Sprintf("drop %d", i))
+				continue
+			}
+			c.exec(fmt.Sprintf("deliver %d", i))
+		}
+		for _, n := range c.alive() {
+			if n != b {
+				c.exec(fmt.Sprintf("process %d", n.id))
+			}
+		}
+	}
+	c.exec("flush 6")
+}
